@@ -527,6 +527,9 @@ namespace ratio
                     learnt.push_back(det_flw->front().first);
                     for (const auto &l : get_sat_core().get_decisions())
                         learnt.push_back(!l);
+#ifdef ORATIO_VERIF
+                    get_sat_core().verif_kind = 5;
+#endif
                     record(learnt);
                     if (!get_sat_core().propagate())
                         throw unsolvable_exception();
